@@ -824,6 +824,18 @@ func tryAPI(src string) (where string, what interface{}) {
 				where = fmt.Sprintf("Execute after second Prepare(optimize=%v)", optimize)
 				e.Execute(obj)
 			}
+			// ... also after a Prepare that was refused
+			if len(src) < 10000 {
+				e.Script = rejectedPrefix + src
+				where = fmt.Sprintf("refused Prepare(optimize=%v)", optimize)
+				e.Prepare()
+				e.Script = src
+				where = fmt.Sprintf("Dump after a refused Prepare(optimize=%v)", optimize)
+				e.Dump()
+				obj, _, _ := racObject(5, 0)
+				where = fmt.Sprintf("Execute after a refused Prepare(optimize=%v)", optimize)
+				e.Execute(obj)
+			}
 		}
 		cancel()
 	}
@@ -961,6 +973,7 @@ var fragmentContexts = []string{
 	"switch ( 1 ) { case 1 { %s; } }", "switch ( 1 ) { default { %s; } }", "v = %s;", "return %s;", "id(%s);", "id(1, %s);", "v = [%s];", "v = [1, %s];", `v = {"k": %s};`,
 	"return 1; %s;", "if ( 1 ) { return 1; %s; }", "function g() { return 1; %s; }", "while ( 0 ) { return 2; %s; }", "foreach x in [1] { return x; %s; }",
 	"if ( false ) { %s; }", "if ( true ) { } else { %s; }", "while ( false ) { %s; }", "if ( 1 == 2 ) { %s; }", "v = false ? %s : 2;", "v = true ? 2 : %s;", "v = false && %s;", "v = true || %s;",
+	"(%s)(2);", "return (%s)();", "v = id(1)(%s);", "(%s).len();",
 	"if ( false ) { function h() { %s; } }", "for ( false ) { %s; }", "switch ( 1 ) { case 2 { %s; } }", "if ( 0 ) { return %s; }",
 	"v = L[%s];", "v = 1 ? %s : 2;", "v = 1 ? 2 : %s;", "v = (%s);", "v = !(%s);", "v = 1 + (%s);", "return id([%s])[0];",
 }
